@@ -120,6 +120,37 @@ func Load(repo, binDir string) *Prog {
 	return LoadWithOverlay(repo, overlay)
 }
 
+// LoadMutated is Load with additional overlay entries (absolute path -> content) that
+// replace files of the repository: used by the thorough tier's canary sweep.
+func LoadMutated(repo, binDir string, extra map[string][]byte) *Prog {
+	tmp, err := os.MkdirTemp("", "verif-pb-")
+	if err != nil {
+		Fatalf("mkdtemp: %v", err)
+	}
+	defer os.RemoveAll(tmp)
+	cmd := exec.Command(filepath.Join(binDir, "pbgen"), "-repo", repo, "-out", tmp, "-plugins", binDir)
+	out, err := cmd.Output()
+	if err != nil {
+		Fatalf("pbgen failed: %v", err)
+	}
+	overlay := map[string][]byte{}
+	for _, rel := range strings.Fields(string(out)) {
+		b, err := os.ReadFile(filepath.Join(tmp, rel))
+		if err != nil {
+			Fatalf("pbgen output: %v", err)
+		}
+		dst := filepath.Join(repo, rel)
+		if _, err := os.Stat(dst); err == nil {
+			continue
+		}
+		overlay[dst] = b
+	}
+	for k, v := range extra {
+		overlay[k] = v
+	}
+	return LoadWithOverlay(repo, overlay)
+}
+
 func LoadWithOverlay(repo string, overlay map[string][]byte) *Prog {
 	fset := token.NewFileSet()
 	// The go command that go/packages spawns must be the toolchain this checker was built
